@@ -1197,3 +1197,73 @@ Proof.
   intros p Hp. apply in_map_iff in Hp. destruct Hp as (r & <- & Hr). apply filter_In in Hr.
   exists (fst r). split. apply Hr. reflexivity.
 Qed.
+
+(* ---------------- C10.9: an event touches the connection it belongs to and nothing else ---------------- *)
+Theorem step808_local pa s e : v_crashed s = false ->
+  let s' := step808 pa s e in
+  (forall c', c' <> ev_conn e -> cfind c' (v_conns s') = cfind c' (v_conns s)) /\
+  (forall c', In c' (v_shut s') -> In c' (v_shut s) \/ c' = ev_conn e) /\
+  (exists l, v_log s' = l ++ v_log s /\ Forall (fun x => fst x = ev_conn e) l) /\
+  v_crashed s' = false.
+Proof.
+  intros Hc. cbv zeta. pose proof (step808_alive pa s e Hc) as Ha. revert Ha. unfold step808. rewrite Hc.
+  assert (Hlog : forall c (outs : list wout), Forall (fun x : N * wout => fst x = c) (rev (map (fun o => (c, o)) outs))).
+  { intros c outs. apply Forall_forall. intros x Hx. apply in_rev in Hx. apply in_map_iff in Hx.
+    destruct Hx as (o & <- & _). reflexivity. }
+  assert (Hsame : (forall c', c' <> ev_conn e -> cfind c' (v_conns s) = cfind c' (v_conns s)) /\
+                  (forall c', In c' (v_shut s) -> In c' (v_shut s) \/ c' = ev_conn e) /\
+                  (exists l, v_log s = l ++ v_log s /\ Forall (fun x => fst x = ev_conn e) l) /\ v_crashed s = false).
+  { repeat split; auto. exists []. split. reflexivity. constructor. }
+  destruct e as [c|c now d|c|c]; cbn [ev_conn] in *.
+  - destruct (cfind c (v_conns s)). intros _. exact Hsame.
+    cbn [v_conns v_log v_shut v_crashed]. intros _. repeat split; auto.
+    intros c' Hn. apply cfind_cset_other. exact Hn. exists []. split. reflexivity. constructor.
+  - destruct (cfind c (v_conns s)) as [k|]. 2:{ intros _. exact Hsame. }
+    destruct d as [|b d]. { intros _. exact Hsame. }
+    destruct (conn_data pa _ now k (b :: d)) as [[k' outs|k' outs]|err|]; cbn [v_conns v_log v_shut v_crashed];
+      try discriminate; intros _.
+    + repeat split; auto. intros c' Hn. apply cfind_cset_other. exact Hn. eexists. split. reflexivity. apply Hlog.
+    + repeat split; auto. intros c' Hn. apply cfind_cremove_other. exact Hn.
+      intros c' [<-|Hin]; auto. eexists. split. reflexivity. apply Hlog.
+    + exact Hsame.
+  - cbn [v_conns v_log v_shut v_crashed]. intros _. repeat split; auto.
+    intros c' Hn. apply cfind_cremove_other. exact Hn. exists []. split. reflexivity. constructor.
+  - destruct (cfind c (v_conns s)). 2:{ intros _. exact Hsame. }
+    cbn [v_conns v_log v_shut v_crashed]. intros _. repeat split; auto.
+    intros c' Hn. apply cfind_cset_other. exact Hn. exists []. split. reflexivity. constructor.
+Qed.
+
+Theorem stepatt_local d s e : a_crashed s = false ->
+  let s' := stepatt d s e in
+  (forall c', c' <> ev_conn e -> cfind c' (a_conns s') = cfind c' (a_conns s)) /\
+  (exists l, a_log s' = l ++ a_log s /\ Forall (fun x => fst x = ev_conn e) l) /\
+  a_crashed s' = false.
+Proof.
+  intros Hc. cbv zeta. pose proof (stepatt_alive d s e Hc) as Ha. revert Ha. unfold stepatt. rewrite Hc.
+  assert (Hsame : (forall c', c' <> ev_conn e -> cfind c' (a_conns s) = cfind c' (a_conns s)) /\
+                  (exists l, a_log s = l ++ a_log s /\ Forall (fun x => fst x = ev_conn e) l) /\ a_crashed s = false).
+  { repeat split; auto. exists []. split. reflexivity. constructor. }
+  destruct e as [c|c now seg|c|c]; cbn [ev_conn] in *.
+  - destruct (cfind c (a_conns s)). intros _. exact Hsame.
+    cbn [a_conns a_log a_crashed]. intros _. repeat split; auto.
+    intros c' Hn. apply cfind_cset_other. exact Hn. exists []. split. reflexivity. constructor.
+  - destruct (cfind c (a_conns s)) as [[[k br]|]|]; try (intros _; exact Hsame).
+    destruct seg as [|b seg]. intros _. exact Hsame.
+    destruct (feed_chk d k (b :: seg)) as [[[w k'] stop]| |]; cbn [crashatt a_crashed]; try discriminate.
+    cbv zeta. destruct stop.
+    + destruct (on_event_chk d (set_stage _ ST_FAIL_QUIT)); cbn [crashatt a_crashed a_conns a_log]; try discriminate.
+      intros _. repeat split; auto. intros c' Hn. apply cfind_cset_other. exact Hn.
+      eexists [_; _]. split. reflexivity. repeat constructor.
+    + cbn [a_conns a_log a_crashed]. intros _. repeat split; auto. intros c' Hn. apply cfind_cset_other. exact Hn.
+      eexists [_]. split. reflexivity. repeat constructor.
+  - destruct (cfind c (a_conns s)) as [[[k br]|]|]; try (intros _; exact Hsame).
+    + destruct (on_event_chk d (quit k)); cbn [crashatt a_crashed a_conns a_log]; try discriminate.
+      intros _. repeat split; auto. intros c' Hn. apply cfind_cremove_other. exact Hn.
+      exists (att_saves c k). split. reflexivity. unfold att_saves.
+      destruct (on_quit_saves (quit k)) as [[dir files]|]; repeat constructor.
+    + cbn [a_conns a_log a_crashed]. intros _. repeat split; auto. intros c' Hn. apply cfind_cremove_other. exact Hn.
+      exists []. split. reflexivity. constructor.
+  - destruct (cfind c (a_conns s)) as [[[k br]|]|]; try (intros _; exact Hsame).
+    cbn [a_conns a_log a_crashed]. intros _. repeat split; auto. intros c' Hn. apply cfind_cset_other. exact Hn.
+    exists []. split. reflexivity. constructor.
+Qed.
